@@ -69,8 +69,10 @@ class SystemW(Inference):
         # self._translation_start()
         tseitin_transformation = TseitinTransformation(self.epistemic_state)
         translated_query = tseitin_transformation.query_to_cnf(query)
-        self.epistemic_state["v_cnf_dict"][0] = translated_query[0]
-        self.epistemic_state["f_cnf_dict"][0] = translated_query[1]
+        # the query's CNFs live beside, not inside, the per-conditional dicts: a
+        # conditional of the base may itself have key 0
+        self.epistemic_state["query_v_cnf"] = translated_query[0]
+        self.epistemic_state["query_f_cnf"] = translated_query[1]
         wcnf = WCNF()
         if not weakly:
             result = self._rec_inference(
@@ -83,7 +85,7 @@ class SystemW(Inference):
             if len(self.epistemic_state["partition"]) < 2:
                 # no finite layer: all feasible worlds are equally plausible, so the
                 # query holds only if no feasible world falsifies it
-                [wcnf.append(c) for c in self.epistemic_state["f_cnf_dict"][0]]
+                [wcnf.append(c) for c in self.epistemic_state["query_f_cnf"]]
                 optimizer = create_optimizer(self.epistemic_state)
                 falsifying = optimizer.minimal_correction_subsets(
                     wcnf,
@@ -120,8 +122,8 @@ class SystemW(Inference):
             softc = self.epistemic_state["nf_cnf_dict"][index]
             [wcnf.append(s, weight=1) for s in softc]
         wcnf_prime = wcnf.copy()
-        [wcnf.append(c) for c in self.epistemic_state["v_cnf_dict"][0]]
-        [wcnf_prime.append(c) for c in self.epistemic_state["f_cnf_dict"][0]]
+        [wcnf.append(c) for c in self.epistemic_state["query_v_cnf"]]
+        [wcnf_prime.append(c) for c in self.epistemic_state["query_f_cnf"]]
         optimizer = create_optimizer(self.epistemic_state)
         ignore = [
             item
